@@ -7,6 +7,14 @@
 From Coq Require Import Arith.
 From DippyV Require Import Base.Str Base.Verdict Model.Cache Model.PairWalk Proofs.CacheP Proofs.LruP Proofs.PairWalkP.
 
+(* the tie: every place in the working tree where something can survive from one call to the next (functools
+   caches, `global` statements, class-level containers, mutable defaults, writes to module-level tables, to other
+   modules' state, to objects received as arguments - regenerated from the source on every run) is a component of
+   the model's state or a justified constant (Model/Cache.v, header of state_inventory_ok) *)
+Theorem C18_state_tie : state_inventory_ok = true.
+Proof. exact state_tie. Qed.
+Print Assumptions C18_state_tie.
+
 Section Any.
   Variable value : Type.
   Variable load : str -> value.
